@@ -368,8 +368,9 @@ pub fn run_c17(env: &mut Env) -> Outcome {
             }));
         }
         match Session::connect_with(pworld, &cfg, &mut connector) {
-            Ok(s0) => {
-                if s0.connect_result.is_ok() {
+            Ok(mut s0) => {
+                // the refusal comes out of connect(), or of the read that takes the licence PDU
+                if s0.connect_result.is_ok() && matches!(s0.drain(8), Ok(Ok(()))) {
                     return viol("c17/session-not-established", "earlier-connection", "the earlier connection was meant to fail at licensing but succeeded".to_string());
                 }
             }
@@ -383,6 +384,13 @@ pub fn run_c17(env: &mut Env) -> Outcome {
     };
     rdp::model::rnd::verif::install(None);
     if let Err(k) = &s.connect_result {
+        let stage = nla_res.as_ref().map(|r| r.borrow().stage).unwrap_or(0);
+        if no_seal && stage == 1 && world.server.borrow().app_in_total == nla_res.as_ref().map(|r| r.borrow().negotiate_ts_len).unwrap_or(0) {
+            // the client stopped at the CHALLENGE that does not grant NTLMSSP_NEGOTIATE_SEAL and sent nothing more:
+            // no secret has left it
+            ctxrc.borrow_mut().probe("challenge_without_seal_refused");
+            return Outcome::Pass;
+        }
         return viol("c17/session-not-established", "connect", format!("connect failed: {}", k));
     }
     match s.activate(40) {
